@@ -66,10 +66,10 @@ theorem freeWeight_eq {B P n : Nat} (ok : FastOk B P n) : freeWeight B P n = 2 ^
   · have : P = B := by have := ok.hPB; omega
     subst this
     rw [if_pos hP]
-    simp only [Nat.mod_mod, hnB]
+    simp only [hnB]
     rw [Nat.zero_add, Nat.mod_eq_of_lt (by omega)]
   · rw [if_neg hP]
-    simp only [Nat.mod_mod, hnB]
+    simp only [hnB]
     have hlt : (2 : Nat) ^ P < 2 ^ B := Nat.pow_lt_pow_right (by omega) (by omega)
     have : 2 ^ P + 2 ^ B - n = (2 ^ P - n) + 2 ^ B := by omega
     rw [this, Nat.add_mod_right, Nat.mod_eq_of_lt (by omega)]
@@ -179,7 +179,7 @@ theorem cdfList_get_lt {i : Nat} (hi : i < n) :
     (cdfList B P n free h)[i]? = some (cumF P n free h i) := by
   unfold cdfList
   rw [List.getElem?_append_left (by simpa using hi)]
-  simp [List.getElem?_map, List.getElem?_range', hi]
+  simp [hi]
 
 theorem cdfList_get_last : (cdfList B P n free h)[n]? = some (wrappingPow2 B P) := by
   unfold cdfList
